@@ -182,7 +182,8 @@ Definition verdict (c : case) : Z * Z :=
       | CDecl => declined
       | _ =>
           let i := call true true 12 tys variadic args in
-          judge cres_eqb o m i (if cres_eqb (call true false 12 tys variadic args) m then 11 else 1)
+          judge cres_eqb o m i (if existsb (fun a => match a with JFun _ => true | _ => false end) args then 23
+                                else if cres_eqb (call true false 12 tys variadic args) m then 11 else 1)
       end
   | CRet vals isarr o =>
       let e := (match vals with [] => [JoUndef] | _ => ret_values vals end,
